@@ -1,5 +1,5 @@
 (* C19 — pinned statements; proofs live in Proofs/PoolProofs.v. *)
-From NW Require Import Base.Bytes Model.PoolTok.
+From NW Require Import Base.Bytes Model.PoolTok Gen.PoolOrder.
 
 Example C19_model_smoke :
   option_map (fun p => (avail p, permits p, length (held p)))
@@ -103,3 +103,12 @@ Theorem C19_waits_although_buffer_available_refuted :
       fits size (bkt bs' j) /\
       has_free (bkt bs' j) /\ choose_bucket bs' 0 size None = Some (j, false).
 Proof. exact bucketed_waits_although_buffer_available_refuted. Qed.
+
+(* The micro-step order Model/PoolTok.v builds in (Pop is enabled only for a task that owns a permit; RetPermit /
+   BatchAddPermit only after the matching PushBack / BatchUnwrap, one unit each) is read off the CURRENT source by
+   translator/poolorder.py (coq/Gen/PoolOrder.v is regenerated on every run). *)
+Theorem C19_source_statement_order :
+  NW.Gen.PoolOrder.acquire_permit_before_pop = true /\
+  NW.Gen.PoolOrder.drop_push_before_permit = true /\
+  NW.Gen.PoolOrder.release_push_then_one_permit_each = true.
+Proof. repeat split; reflexivity. Qed.
